@@ -354,20 +354,19 @@ class AttributeSet(TypedExpression):
             return self.add_trivia(f"{prefix}{{ }}", indent=indent, inline=inline)
 
         multiline = self.multiline
-        if not multiline:
-            render_values = self.attrpath_order if self.attrpath_order else self.values
-            inline_bindings = _render_bindings(render_values, indent=indented, inline=True)
-            if any("\n" in rendered for rendered in inline_bindings):
-                # A binding that spans several lines cannot sit in a one-line
-                # set: the next parse would see a multi-line set and re-flow it.
-                multiline = True
+        render_values = self.attrpath_order if self.attrpath_order else self.values
+        # Render the bindings once: a second pass per nesting level is exponential.
+        rendered_bindings = _render_bindings(
+            render_values, indent=indented, inline=False
+        )
+        if not multiline and any("\n" in rendered for rendered in rendered_bindings):
+            # A binding that spans several lines cannot sit in a one-line
+            # set: the next parse would see a multi-line set and re-flow it.
+            multiline = True
 
         if multiline:
             before_str = format_trivia(self.before, indent=indent)
-            render_values = self.attrpath_order if self.attrpath_order else self.values
-            bindings_str = "\n".join(
-                _render_bindings(render_values, indent=indented, inline=False)
-            )
+            bindings_str = "\n".join(rendered_bindings)
             if bindings_str.endswith("\n"):
                 closing_sep = ""
             else:
@@ -381,7 +380,12 @@ class AttributeSet(TypedExpression):
             )
             return apply_trailing_trivia(set_str, self.after, indent=indent)
         else:
-            bindings_str = " ".join(inline_bindings)
+            # A one-line binding rendered at an indentation is that indentation
+            # followed by its inline form.
+            padding = " " * indented
+            bindings_str = " ".join(
+                rendered.removeprefix(padding) for rendered in rendered_bindings
+            )
             return self.add_trivia(
                 f"{prefix}{{ {bindings_str} }}", indent=indent, inline=inline
             )
